@@ -117,6 +117,10 @@ fn rand_args(rng: &mut impl Rng) -> (Option<Value>, Option<Value>) {
 
 fn push_enter(rng: &mut impl Rng, evs: &mut Vec<Value>, id: u64, res: &str, n: u64, inb: bool, t: u64, with_args: bool) {
     let mut e = json!({"e": "enter", "id": id, "res": res, "n": n, "in": inb, "t": t});
+    // now and then the caller classifies the resource differently (web, rpc, ...): the resource is the name
+    if rng.gen_range(0..5) == 0 {
+        e["kind"] = json!(rng.gen_range(0..=6u64));
+    }
     if with_args {
         let (a, at) = rand_args(rng);
         if let Some(a) = a {
@@ -485,7 +489,7 @@ pub fn c09(rng: &mut impl Rng, len: usize) -> Vec<Value> {
             4 => evs.push(json!({"e": "adv", "t": t})),
             5..=11 if !open.is_empty() => {
                 let i = rng.gen_range(0..open.len());
-                evs.push(json!({"e": "exit", "id": open.remove(i), "t": t}));
+                evs.push(json!({"e": "exit", "id": open.remove(i), "t": t, "err": rng.gen_range(0..4) == 0}));
             }
             _ => {
                 id += 1;
